@@ -19,7 +19,7 @@ RULE = (
     "For every row (period, agent) the oracle recomputes Q over all grid choice combinations with the NumPy "
     "reference from the value arrays in use and requires: every reported choice is a grid node, the combination "
     "is feasible, Q(reported) >= max feasible Q - 1e-9*max(1,|max|), value == max (same tolerance). Rows without "
-    "a finite maximum or on a constraint knife edge are skipped and counted. A row is non-trivial when >=2 "
+    "a finite maximum or on a constraint knife edge are skipped and counted. One case in 6 comes from the constructive 'infeasible last period' stream (some discrete state labels have no feasible choice in the last period, so the value arrays in use contain -inf and choices leading there have Q=-inf). A row is non-trivial when >=2 "
     "feasible combinations differ in Q by > 1e-7 and the maximiser is not the first grid position of every "
     "choice variable; distinct_nontrivial counts distinct cases (digest of model+agents+arrays) containing at least one such row, the rows themselves are counted under counters.rows_nontrivial."
 )
@@ -42,6 +42,13 @@ PROFILE = Profile(name="sim", p_filter=0.7, force_sparse_and_dense_choice=0.35, 
 
 @st.composite
 def cases(draw, prof=None):
+    inf_stream = prof is None and draw(st.integers(0, 5)) == 0
+    if inf_stream:
+        # models in which some last-period states have no feasible choice: the value arrays in use
+        # contain -inf entries, and choices leading next to such states have Q = -inf
+        from .c01 import PROFILE_INFEASIBLE
+
+        prof = PROFILE_INFEASIBLE
     spec = draw(model_specs(prof or PROFILE))
     agents = draw(raw_agents(1, 8))
     if draw(st.integers(0, 9)) == 0:
@@ -53,6 +60,7 @@ def cases(draw, prof=None):
         "vf_mode": draw(st.sampled_from(["solution", "solution", "arbitrary"])),
         "vf_raw": draw(st.lists(st.integers(-300, 300), min_size=48, max_size=48)),
         "twin_first": draw(st.integers(0, 4)) == 0,
+        "infeasible_ok": inf_stream,
     }
 
 
@@ -86,11 +94,12 @@ def check(case):
     dg = case_digest(case)
     if skip:
         return Outcome(status="skip", reason=skip, digest=dg)
-    if not all(np.isfinite(ref.to_lcm_layout(v, t)).all() for t, v in enumerate(ref.V)):
+    nonfinite = not all(np.isfinite(ref.to_lcm_layout(v, t)).all() for t, v in enumerate(ref.V))
+    if nonfinite and not case.get("infeasible_ok"):
         return Outcome(status="skip", reason="nonfinite_reference", digest=dg)
     init = materialise_agents(spec, ref, case["agents"])
     n = len(case["agents"])
-    classes = model_classes(spec, ref) + [f"vf_{case['vf_mode']}"]
+    classes = model_classes(spec, ref) + [f"vf_{case['vf_mode']}"] + (["value_arrays_with_minus_inf"] if nonfinite else [])
     if case.get("twin_first"):
         # first simulate a twin model (same names/signatures, other tables) in the same process
         from ..ir import twin
